@@ -1410,7 +1410,25 @@ class Controller:
                     ),
                 )
                 self.on_le_cis_disconnected(cis_link.cig_id, cis_link.cis_id)
+            else:
+                # Nothing to tear down on the link, just conclude the procedure.
+                self.send_hci_packet(
+                    hci.HCI_Disconnection_Complete_Event(
+                        status=hci.HCI_ErrorCode.SUCCESS,
+                        connection_handle=handle,
+                        reason=command.reason,
+                    )
+                )
             # Spec requires handle to be kept after disconnection.
+        else:
+            # No such connection: conclude the procedure with an error.
+            self.send_hci_packet(
+                hci.HCI_Disconnection_Complete_Event(
+                    status=hci.HCI_ErrorCode.UNKNOWN_CONNECTION_IDENTIFIER_ERROR,
+                    connection_handle=handle,
+                    reason=command.reason,
+                )
+            )
 
         return None
 
